@@ -543,6 +543,22 @@ def build_tag(r):
         finally:
             _sys.displayhook = old
         return t
+    if how == "displayed":
+        # children added by displaying them inside the element's `with` block (None/Ellipsis would be ignored; self-rendering
+        # objects that are not tagifiable are stored as their markup, which renders the same)
+        import sys as _sys
+
+        t = mk(*attr_args)
+        old = _sys.displayhook
+        _sys.displayhook = _noop_hook
+        try:
+            with t:
+                for k in kids:
+                    if k is not None:
+                        _sys.displayhook(k)
+        finally:
+            _sys.displayhook = old
+        return t
     if how == "insert_neg_list":
         # several nodes inserted at once at a negative index keep their order
         single = ("text", "num", "tag", "html", "obj", "dep", "meta", "headc", "tfobj")
